@@ -18,6 +18,7 @@ type Atom struct {
 	t    *Term  // fmtint: BV64; fmtfloat: F64; fmtbool: Bool
 	r    Value  // quote: the quoted string (string or *Rope)
 	id   int    // identity (opaque atoms are equal only to themselves)
+	key  string // opaque atoms: same function applied to the same argument terms ("" = unknown)
 	desc string
 }
 
@@ -390,7 +391,7 @@ func (in *Interp) ropeEq(a, b []Chunk) *Term {
 				a, b = a[1:], b[1:]
 				continue
 			}
-			if x.atom.id == y.atom.id {
+			if x.atom.id == y.atom.id || (x.atom.kind == "opaque" && y.atom.kind == "opaque" && x.atom.key != "" && x.atom.key == y.atom.key) {
 				a, b = a[1:], b[1:]
 				continue
 			}
@@ -533,6 +534,9 @@ func (in *Interp) atomEq(x, y *Atom) *Term {
 	}
 	if x.kind == "fmtbool" || y.kind == "fmtbool" {
 		return ts.Bool(false) // "true"/"false" never equal a number rendering
+	}
+	if x.kind == "opaque" && y.kind == "opaque" && x.key != "" && x.key == y.key {
+		return ts.Bool(true) // the same function of the same terms
 	}
 	return in.undecided("between " + x.describe() + " and " + y.describe())
 }
